@@ -48,12 +48,16 @@ class NullKeySpace(Subspace):
     shard = 40
 
     def __init__(self, name, G, lo, hi, keys=("float",), vdtype="f8", threshold=None, fanout=None,
-                 opnames=None, seed=0):
+                 opnames=None, seed=0, with_mask=False):
         self.name = name
+        self.with_mask = with_mask
         self.keys, self.vdtype = tuple(keys), vdtype
         self.threshold, self.fanout, self.seed = threshold, fanout, seed
         alpha = row_alphabet(G, len(keys), [gbh.key_can_null(k) for k in keys],
-                             C.can_null(vdtype), False)
+                             C.can_null(vdtype), with_mask)
+        if with_mask:
+            # null-key rows in both mask states (a rejected null-key row must not matter either)
+            alpha = alpha + [(kt, 1, 0) for (kt, x, m) in alpha if any(k < 0 for k in kt)]
         self.ws = W.WordSpace(alpha, lo, hi)
         self.opnames = opnames
         self.warm_key = f"{vdtype}-{threshold}"
@@ -81,12 +85,16 @@ class NullKeySpace(Subspace):
         res.nontrivial = bool(keep)
         dd = d.take(keep)
         vkind = d.V.dtype.kind
-        opnames = case.get("ops") or O.names(mask_kind="none", vkind=vkind)
+        mref = list(d.ms) if d.ms is not None else None
+        opnames = case.get("ops") or O.names(mask_kind="bool" if mref else "none", vkind=vkind,
+                                             exclude=("sum_obsF",) if mref else ())
         seams = env.seams()
         seams.set(executor=sched.NAMESPACE, threshold=case.get("threshold"),
                   fanout=case.get("fanout"))
         sched.set_schedule(sched.Schedule())
-        cf, cd = d.ctx(), dd.ctx()
+        cf = d.ctx(mref)
+        cd = dd.ctx(None if mref is None else [mref[i] for i in keep])
+        constrained = [i for i in keep if mref is None or mref[i]]
         rank = {p: j for j, p in enumerate(keep)}
         for name in opnames:
             op = O.OPS[name]
@@ -124,7 +132,7 @@ class NullKeySpace(Subspace):
                 tf, td = gbh.table(of), gbh.table(od)
                 lf, ld = of.labels, od.labels
                 bad = None
-                for i in keep:
+                for i in constrained:
                     a, b = tf[lf[i]], td[ld[rank[i]]]
                     if not gbh.veq(a, b):
                         bad = f"row {i}: {a} vs {b} after deleting null-key rows"
@@ -139,6 +147,12 @@ class NullKeySpace(Subspace):
                 elif not all(_neutral(m, dts) for m in marks):
                     res.fail("marker", f"{name}: null-key rows receive {sorted(map(str, marks))}")
             elif op.kind in ("gsorted", "select"):
+                if mref is not None and op.kind == "gsorted":
+                    # only selected rows are constrained (EMA lists rejected rows too)
+                    for o_ in (of, od):
+                        kp = [j for j, lab in enumerate(o_.labels) if mref[lab[-1]]]
+                        o_.labels = [o_.labels[j] for j in kp]
+                        o_.values = {c: [v[j] for j in kp] for c, v in o_.values.items()}
                 bad = gbh.same_mapping(of, od, ordered=True)
                 if bad:
                     res.fail(op.kind, f"{name}: {bad}")
@@ -173,6 +187,11 @@ def subspaces(tier, seed):
                S("float-f8-chunkwise-n1to5", 3, 1, 5, threshold=1, seed=seed),
                S("float-f8-chunkwise-fanout2-n1to4", 3, 1, 4, threshold=1, fanout=2, seed=seed),
                S("float-f8-chunkwise-fanout3-n1to4", 3, 1, 4, threshold=1, fanout=3, seed=seed)]
+    hm = 3 if q else 4
+    sp.append(S(f"masked-float-f8-contig-n1to{hm}", 2, 1, hm, with_mask=True, seed=seed))
+    sp.append(S(f"masked-float-f8-chunkwise-n1to{hm}", 2, 1, hm, threshold=1, with_mask=True, seed=seed))
+    sp.append(S("masked-float+str-f8-n1to2", 2, 1, 2, keys=("float", "str_obj"), with_mask=True,
+                seed=seed))
     hk = 3 if q else 4
     for kk in ("str_obj", "dt_ns", "cat"):
         sp.append(S(f"{kk}-f8-contig-n1to{hk}", 2 if q else 3, 1, hk, keys=(kk,), seed=seed))
